@@ -72,6 +72,26 @@ static std::string run(const Sx& c) {
     for (int i = 0; i < n; i++) o << (i ? " " : "") << (r[i] != 0. ? 1 : 0);
     o << "))";
     delete db;
+  } else if (kind == 4) {
+    // convex hull of a point set: Polygons::createFromDb; each returned vertex is reported as the rank of the first data point
+    // with exactly the same coordinates (-1 if there is none)
+    int n = (int) c[1].size();
+    VectorDouble tab((size_t) 2 * n);
+    for (int i = 0; i < n; i++) { tab[i] = c[1][i][0].d(); tab[n + i] = c[1][i][1].d(); }
+    Db* db = Db::createFromSamples(n, ELoadBy::COLUMN, tab, {"x", "y"}, {"x1", "x2"}, false);
+    Polygons* P = Polygons::createFromDb(db, 0., false);
+    if (P == nullptr || P->getPolyElemNumber() != 1) o << "(-1)";
+    else {
+      VectorDouble hx = P->getX(0), hy = P->getY(0);
+      o << "((";
+      for (size_t k = 0; k < hx.size(); k++) {
+        int r = -1;
+        for (int i = 0; i < n && r < 0; i++) if (tab[i] == hx[k] && tab[n + i] == hy[k]) r = i;
+        o << (k ? " " : "") << r;
+      }
+      o << "))";
+    }
+    delete P; delete db;
   } else o << "(-997 1)";
   return o.str();
 }
